@@ -226,11 +226,11 @@ func cmdCheck(args []string) int {
 	solverSecs := 0.0
 	byBackend := map[string]int{}
 	toolErrors := []string{}
-	vacuity := map[string]string{}
+	vacuity := map[string][]string{}
 	for _, r := range res {
 		solverSecs += r.R.Secs
 		if r.O.Vacuity {
-			vacuity[r.O.Name] = r.R.Status
+			vacuity[r.O.Name] = append(vacuity[r.O.Name], r.R.Status)
 			continue
 		}
 		s := sums[r.O.Name]
@@ -269,16 +269,27 @@ func cmdCheck(args []string) int {
 	}
 	sort.Strings(order)
 
-	// vacuity: preconditions must be satisfiable
+	// vacuity: preconditions must be satisfiable; of the reachability canaries that share a name (exit paths of a
+	// function, body ends of a loop) at least one must be satisfiable
 	vacOK, vacUnknown := 0, 0
-	for name, st := range vacuity {
-		switch st {
-		case "sat":
+	for name, sts := range vacuity {
+		anySat, anyUnknown := false, false
+		for _, st := range sts {
+			switch st {
+			case "sat":
+				anySat = true
+			case "unsat":
+			default:
+				anyUnknown = true
+			}
+		}
+		switch {
+		case anySat:
 			vacOK++
-		case "unsat":
-			toolErrors = append(toolErrors, "VACUOUS: "+name+" is unsatisfiable")
-		default:
+		case anyUnknown:
 			vacUnknown++
+		default:
+			toolErrors = append(toolErrors, "VACUOUS: "+name+" is unsatisfiable (contradictory precondition / invariant / assumption)")
 		}
 	}
 
